@@ -435,6 +435,66 @@ def common_report_fields(rep, items):
                   'default MIR bodies', 'std::env::var -> modelled environment', 'std::env::current_dir -> /tmp']
 
 
+def macro_half(rep):
+    """Tier B: for every corpus item, the types the derive-generated visit_dependencies reports are exactly the types its
+    inline()/decl() text refers to: a parameter referenced BY NAME is visited (directly, or through visit_generics of a container
+    that is visited), a parameter that is INLINED or FLATTENED contributes its own dependencies, and nothing else is reported."""
+    from . import tyres, c07
+    from mirsym.interp import Hole
+    tyres.setup()
+    TG = tyres.G
+    ob = di = 0
+    for name, item in TG['corpus'].items():
+        gens = item['generics']
+        ty = c07.type_text(name, item)
+        ex = Explorer()
+
+        def h(ctx):
+            r = tyres.Resolver(gens)
+            m = tyres.machine(ctx, r)
+            try:
+                inl = list(m.call(f'<{ty} as TS>::inline', []).cs)
+                r.log.clear()
+                m.call(f'<{ty} as TS>::visit_dependencies::<impl TypeVisitor>', [ValRef(('visitor',))])
+            except Panic as e:
+                return ('panic', str(e), None)
+            return ('ok', inl, list(r.log))
+        try:
+            res = ex.run(h)
+        except Unsupported as e:
+            rep.inconclusive.append(f'macro half, {name}: {e}')
+            continue
+        rep.absorb(dict(paths=ex.paths, nontrivial=ex.paths, queries=ex.queries, solver_s=ex.solver_s))
+        for pc, (k, inl, log) in res:
+            ob += 1
+            if k == 'panic':
+                rep.violations.append({'what': f'{item["src"]}: inline()/visit_dependencies panics: {inl}', 'witness': {'item': name}, 'key': f'mh/{name}/panic'})
+                continue
+            by_name = {c.label.split('.')[0] for c in inl if isinstance(c, Hole) and c.label.endswith('.name') and c.label.split('.')[0] in gens}
+            inlined = {c.label.split('.')[0] for c in inl if isinstance(c, Hole) and (c.label.endswith('.inline') or c.label.endswith('.inline_flattened'))
+                       and c.label.split('.')[0] in gens}
+            visited = {t for op, t in log if op == 'visit' and t in gens}
+            fwd_deps = {t for op, t in log if op == 'forward_visit_dependencies'}
+            # concretised parameters are replaced by their concrete type in the binding but the field still has the parameter's type
+            conc = set(item['concrete'])
+            why = None
+            if not (by_name - conc) <= visited:
+                why = f'parameter(s) {sorted(by_name - conc - visited)} are referred to by name but not reported as dependencies'
+            elif not (visited - conc) <= by_name:
+                why = f'parameter(s) {sorted(visited - by_name)} are reported as dependencies but their name is not used'
+            elif not inlined <= fwd_deps:
+                why = f'inlined/flattened parameter(s) {sorted(inlined - fwd_deps)} do not contribute their dependencies'
+            elif not fwd_deps <= inlined:
+                why = f'dependencies of {sorted(fwd_deps - inlined)} are forwarded although the parameter is not inlined'
+            if why:
+                rep.violations.append({'what': f'{item["src"]}: {why} [inline = {tyres.show_rope(inl)!r}, reported = {log}]',
+                                       'witness': {'item': name, 'log': log}, 'key': f'mh/{name}'})
+            else:
+                di += 1
+    rep.absorb(dict(obligations=ob, discharged=di))
+    rep.part('macro half (tier B corpus)', items=len(TG['corpus']), obligations=ob)
+
+
 def main():
     rep = report.Report('C03', 'bounded symbolic execution of rustc MIR: export_to_string/generate_imports over an abstract type universe with '
                                'symbolic names, placements, exportability and visit sequence; the import block is parsed back and decided '
@@ -445,10 +505,14 @@ def main():
     validate(rep, 40 if quick else 400)
     items, cand = run(rep, quick)
     common_report_fields(rep, items)
-    rep.outside += ['the macro half: which types the generated visit_dependencies reports (generics, defaults, inline/flatten/as)',
+    rep.outside += ['the macro half beyond the tier-B corpus (props/tyres.py): concrete user types as dependencies, parameter defaults',
                     'more than 3 dependencies, longer names, placements outside the menu / longer symbolic parts',
                     'that the imported file was written by the same export (C11)']
     confirm(rep, cand, only='imports')
+    try:
+        macro_half(rep)
+    except Unsupported as e:
+        rep.inconclusive.append(f'macro half: {e}')
     return rep.finish()
 
 
